@@ -154,6 +154,27 @@ func c01Decode(run *vk.Run, seq []c01pkt, src io.Reader, delivered func() int, p
 	defer sp.Close()
 	consumed := 0
 	sumN := 0
+	// decoded packets are retained and compared again after the whole sequence was
+	// read: a caller holding an earlier packet must not see it change when later
+	// packets are decoded (e.g. a payload aliasing a pooled buffer)
+	kept := make([]*packet.TransferPacket, len(seq))
+	defer func() {
+		for i, got := range kept {
+			if got == nil {
+				continue
+			}
+			want := seq[i]
+			if want.Cmd != nil {
+				if got.CommandPacket == nil || *got.CommandPacket != *want.Cmd {
+					run.Violation("C01:retained-packet-changed|part="+partClass, map[string]any{"index": i, "kind": "cmd", "case": detail()})
+					return
+				}
+			} else if !packet.Type(want.Type).IsHeartbeat() && !bytes.Equal(got.Payload, want.Payload) {
+				run.Violation("C01:retained-packet-changed|part="+partClass, map[string]any{"index": i, "kind": "payload", "len": len(want.Payload), "case": detail()})
+				return
+			}
+		}
+	}()
 	for i, want := range seq {
 		got, n, err := sp.ReadPacket()
 		consumed += want.encLen
@@ -189,6 +210,7 @@ func c01Decode(run *vk.Run, seq []c01pkt, src io.Reader, delivered func() int, p
 					return false
 				}
 			}
+			kept[i] = got
 			if n != want.encLen {
 				run.Violation(sigBase+"|bytecount", map[string]any{"index": i, "reported": n, "encoded": want.encLen, "case": detail()})
 				return false
